@@ -913,10 +913,12 @@ func (p *balloons) deleteBalloon(bln *Balloon) {
 	}
 	p.balloons = remainingBalloons
 	p.forgetCpuClass(bln)
-	p.freeCpus = p.freeCpus.Union(bln.Cpus)
+	freedCpus := bln.Cpus.Clone()
+	p.freeCpus = p.freeCpus.Union(freedCpus)
 	if _, err := p.cpuAllocator.ReleaseCpus(&bln.Cpus, bln.Cpus.Size(), bln.Def.AllocatorPriority.Value().Option()); err != nil {
 		log.Warnf("failed to release CPUs %q of balloon %s[%d]: %v", bln.Cpus, bln.Def.Name, bln.Instance, err)
 	}
+	p.updatePinning(p.shareIdleCpus(freedCpus, cpuset.New())...)
 }
 
 // freeBalloon clears a balloon and deletes it if allowed.
@@ -935,7 +937,7 @@ func (p *balloons) fillableBalloonInstances(blnDef *BalloonDef, fm FillMethod, c
 		// Choosing an existing balloon without containers is
 		// preferred over instantiating a new balloon.
 		for _, bln := range p.balloonsByDef(blnDef) {
-			if len(bln.PodIDs) == 0 {
+			if len(bln.PodIDs) == 0 && p.maxFreeMilliCpus(bln) >= reqMilliCpus {
 				return []*Balloon{bln}, nil
 			}
 		}
@@ -967,7 +969,10 @@ func (p *balloons) fillableBalloonInstances(blnDef *BalloonDef, fm FillMethod, c
 			}
 		}
 		undoFuncs = append(undoFuncs, func() {
-			p.freeCpus = p.freeCpus.Union(newBln.Cpus)
+			freedCpus := newBln.Cpus.Clone()
+			p.forgetCpuClass(newBln)
+			p.freeCpus = p.freeCpus.Union(freedCpus)
+			p.updatePinning(p.shareIdleCpus(freedCpus, cpuset.New())...)
 		})
 		if newBln.MaxAvailMilliCpus(p.freeCpus) < reqMilliCpus {
 			// New balloon cannot be inflated to fit new
